@@ -97,6 +97,15 @@ def strategy_(draw, tier):
             # the same read listed again with other values: the statement does not say which listing counts,
             # the oracle accepts the values of any ONE listing (never a mixture)
             tsv.append("%s\t%s\t%d\t%s" % (r, draw(st.sampled_from(["H1", "H2"])), draw(st.sampled_from([5, 909])), contig))
+    listed = [row.split("\t")[0] for row in tsv[1:]]
+    if listed and draw(st.integers(0, 3)) == 0:
+        # a read that is NOT in the TSV but whose name extends or truncates the name of one that is (mates /1 and /2,
+        # sub-reads): it is a different read and gets 'none'
+        base = draw(st.sampled_from(listed))
+        other = draw(st.sampled_from([base + "/1", base + "/2", base + ".1", base + "_2", base + "x", base[:-1]]))
+        if other and other not in listed and other not in reads:
+            for _ in range(draw(st.integers(1, 2))):
+                lines.insert(draw(st.integers(0, len(lines))), draw(gaf_record(other)))
     hdr = tsv[0]
     body = [tsv[1 + i] for i in draw(st.permutations(range(len(tsv) - 1)))]
     comp = None
